@@ -981,3 +981,4 @@ mutant('C01', 'reset-shares-one-list', PT, "            for variable in element.
        "            element.time_variables.update(dict.fromkeys(element.time_variables, []))\n", 'C01.recorded.reset')
 mutant('C06', 'interval-times-speed-guarded-on-result', UN, "    def __mul__(self, other: float | int) -> TimeInterval:\n        super().__mul__(other=other)\n\n        if other <= 0:",
        "    def __mul__(self, other):\n        result = super().__mul__(other=other)\n        if not isinstance(result, Time):\n            if result.value <= 0:\n                raise ValueError('negative')\n            return result\n\n        if other <= 0:", 'C06.kind')
+mutant('C08', 'zero-torque-guard-tests-another-value', DC, "        if maximum_torque.value == 0:", "        if maximum_torque.value == 1:", 'C08.boundary-division')
